@@ -651,7 +651,9 @@ def run(chk):
         bad += batched(chk, chk.tier)
     chk.cov["disagreements"] = len(bad)
     # findings files: compiled = the refutation still holds of the model
-    chk.cov["findings_files"] = {f: (f in br.built_vo) for f in FINDINGS}
+    br_f = common.build(targets=FINDINGS, groups=())   # not obligations: refutations of the faithful model
+    chk.cov["findings_files"] = {f: (f in br_f.built_vo) for f in FINDINGS}
+    chk.cov["findings_files_errors"] = {f: br_f.failed_vo.get(f, "")[:300] for f in FINDINGS if f not in br_f.built_vo}
     status = {f["key"]: f.get("status", "open") for f in common.load_known_findings() if f.get("property") == "C14"}
     if ok and not bad:
         rep = witnesses()
